@@ -75,6 +75,7 @@ class AfterStart:
 
 class LifeRun:
     runs = 0
+    fresh_loops = 0
     nested = 0
 
     def __init__(self, front, nroutes, dup=None, base=None):
@@ -106,6 +107,7 @@ class LifeRun:
         if self.base:
             self.app.detach_handler(self.base)
         self.problems = []
+        self.old_errors = []
         # a second declaration for a prefix that is already taken is refused (appv2: ValueError at declaration time) and is
         # therefore not a declared route: the prefix is still registered once per connection. Every second run tries one.
         LifeRun.runs += 1
@@ -181,7 +183,24 @@ class LifeRun:
     def apply(self, act, args):
         getattr(self, 'do_' + act)(*args)
 
+    def _fresh_loop(self):
+        """A later connection runs in a NEW event loop, as NDNApp.run_forever() does (asyncio.run per connection), when the
+        old loop has nothing left to run: what the application object keeps must not be tied to the loop that is gone."""
+        import asyncio
+        old = self.loop
+        if any(not t.done() for t in asyncio.all_tasks(old)):
+            return
+        self.old_errors += list(old.errors)
+        t = old.time()
+        self.sess.__exit__(None, None, None)
+        self.sess = Session(start=t)
+        self.sess.__enter__()
+        self.loop = self.sess.loop
+        LifeRun.fresh_loops += 1
+
     def do_StartMain(self, a):
+        if self.conn >= 1 and LifeRun.runs % 2 == 1:
+            self._fresh_loop()
         self.conn += 1
         self.after = AfterStart(self.loop) if a else None
         self.main = self.sess.spawn(self.app.main_loop(self.after.coro if a else None))
@@ -302,7 +321,7 @@ class LifeRun:
             att = [enc.Name.to_str(list(k)) for k, n in self.app._prefix_tree.iteritems() if n.callback is not None]
         pre = self.base + '/r'
         p['attached'] = sorted(int(a[len(pre):]) for a in att if a.startswith(pre))
-        p['bg'] = [str(c.get('exception') or c.get('message')) for c in self.loop.errors]
+        p['bg'] = [str(c.get('exception') or c.get('message')) for c in self.old_errors + list(self.loop.errors)]
         p['problems'] = list(self.problems)
         return p
 
